@@ -47,41 +47,63 @@ class Ctx:
         self.mc_runs.append({k: st[k] for k in ("module", "cfg", "states", "transitions", "wall", "cached")})
         return st
 
-    def replay(self, cases, name, trace_module, mode="cases", shards=None, keep=None, args=None):
-        """cases: iterable of case dicts (ids are assigned here); returns validation result"""
+    def replay(self, cases, name, trace_module, mode="cases", shards=None, keep=None, args=None, batch=40000):
+        """cases: iterable of case dicts (ids are assigned here); returns the validation result of the last batch.
+        The cases are handled in batches (harness run, trace validation) so that neither the files nor the memory
+        grow with the size of the family; in the thorough tier each batch's files are removed once validated."""
         d = os.path.join(WORK, "run", self.pid)
         os.makedirs(d, exist_ok=True)
         cpath = os.path.join(d, name + ".cases")
         tpath = os.path.join(d, name + ".ndjson")
-        n0 = self.ncases
-        with open(cpath, "w") as f:
-            for c in cases:
-                self.ncases += 1
-                c["case"] = self.ncases
-                self.cases[self.ncases] = c if keep is None else keep(c)
-                f.write(json.dumps(c) + "\n")
-        if self.ncases == n0:
-            return None
-        vlib.run_harness(mode, cpath, tpath, args=args)
-        res = vlib.validate(trace_module, tpath, shards=shards)
-        self.events += res["events"]
-        self.verdicts += res["verdicts"]
-        self.drifts += res["drifts"]
-        self.unjudged += res["unjudged"]
-        self.notes += res["notes"]
-        if not res["accepted"]:
-            self.rejected = True
-        self.last_trace = tpath
-        for rec in res["notes"]:
-            if "nontrivial" in rec:
-                self.nontrivial.add(rec["nontrivial"])
-        if res["verdicts"]:
-            want = {(v.get("case"), v.get("tag")) for v in res["verdicts"]}
-            for line in open(tpath):
-                e = json.loads(line)
-                k = (e.get("case"), e.get("tag"))
-                if k in want:
-                    self.vevents[k] = {x: e.get(x) for x in ("comps", "fac", "kexp", "area", "lm", "N", "run", "q")}
+        res = None
+        it = iter(cases)
+        done = False
+        first = True
+        while not done:
+            n0 = self.ncases
+            with open(cpath, "w") as f:
+                for c in it:
+                    self.ncases += 1
+                    c["case"] = self.ncases
+                    # the thorough tier keeps no copy of the (very many) cases: a violating case is read back from the batch
+                    if self.quick or self.ncases <= 10:
+                        self.cases[self.ncases] = c if keep is None else keep(c)
+                    f.write(json.dumps(c) + "\n")
+                    if self.ncases - n0 >= batch:
+                        break
+                else:
+                    done = True
+            if self.ncases == n0:
+                break
+            if not first and os.path.exists(tpath):
+                os.remove(tpath)
+            first = False
+            vlib.run_harness(mode, cpath, tpath, args=args)
+            res = vlib.validate(trace_module, tpath, shards=shards)
+            self.events += res["events"]
+            self.verdicts += res["verdicts"]
+            self.drifts += res["drifts"]
+            self.unjudged += res["unjudged"]
+            self.notes += res["notes"]
+            if not res["accepted"]:
+                self.rejected = True
+            self.last_trace = tpath
+            for rec in res["notes"]:
+                if "nontrivial" in rec:
+                    self.nontrivial.add(rec["nontrivial"])
+            if res["verdicts"] or res["unjudged"]:
+                want = {(v.get("case"), v.get("tag")) for v in res["verdicts"]}
+                for line in open(tpath):
+                    e = json.loads(line)
+                    k = (e.get("case"), e.get("tag"))
+                    if k in want:
+                        self.vevents[k] = {x: e.get(x) for x in ("comps", "fac", "kexp", "area", "lm", "N", "run", "q")}
+                if not self.quick:
+                    wantc = {v.get("case") for v in res["verdicts"]} | {u.get("case") for u in res["unjudged"]}
+                    for line in open(cpath):
+                        c = json.loads(line)
+                        if c.get("case") in wantc:
+                            self.cases[c["case"]] = c if keep is None else keep(c)
         return res
 
     def sample_from_trace(self, tpath, n=3, fields=("case", "tag", "kexp", "area", "lm", "comps", "N")):
@@ -614,7 +636,7 @@ def c07_cases(st, shape_stride, seed):
 
 def p_C07(ctx):
     st = ctx.mc("MC_C07", "MC_C07_quick.cfg" if ctx.quick else "MC_C07_thorough.cfg", timeout=3000)
-    ctx.replay(c07_cases(st, 4 if ctx.quick else 1, ctx.seed), "subsets", "Trace_C07")
+    ctx.replay(c07_cases(st, 4 if ctx.quick else 8, ctx.seed), "subsets", "Trace_C07")
     ctx.extra["factor_files"] = st["states"]
     if ctx.quick:
         st2 = ctx.mc("MC_C07", "MC_C07_dup.cfg")
@@ -1082,7 +1104,14 @@ def run_property(pid, tier, seed, replay):
     vlib.build(cli=pid in ("C10", "C16", "C17", "C18", "C19"))
     if replay:
         return run_replay(ctx, replay)
-    return PROPS[pid](ctx)
+    try:
+        return PROPS[pid](ctx)
+    finally:
+        # the traces of a thorough run are large (GBs): they are removed once judged (replay files of violations are
+        # kept under work/replay); VERIF_KEEP=1 keeps them for inspection
+        if tier == "thorough" and not os.environ.get("VERIF_KEEP"):
+            import shutil
+            shutil.rmtree(os.path.join(WORK, "run", pid), ignore_errors=True)
 
 
 def run_replay(ctx, path):
